@@ -1,6 +1,7 @@
 package keeper
 
 import (
+	"bytes"
 	"fmt"
 
 	storetypes "cosmossdk.io/store/types"
@@ -83,6 +84,34 @@ func (k *Keeper) SetCode(ctx sdk.Context, codeHash, code []byte) {
 		fmt.Sprintf("code %s", action),
 		"code-hash", common.BytesToHash(codeHash).Hex(),
 	)
+}
+
+// IterateStorageOwners iterating through all addresses which hold at least one storage slot, in address order
+func (k Keeper) IterateStorageOwners(ctx sdk.Context, callback func(addr common.Address) (stop bool)) {
+	store := ctx.KVStore(k.storeKey)
+	iterator := storetypes.KVStorePrefixIterator(store, evmtypes.KeyPrefixStorage)
+
+	defer func() {
+		_ = iterator.Close()
+	}()
+
+	var previous []byte
+	for ; iterator.Valid(); iterator.Next() {
+		// key = prefix + address + slot
+		key := iterator.Key()
+		if len(key) < len(evmtypes.KeyPrefixStorage)+common.AddressLength {
+			continue
+		}
+		owner := key[len(evmtypes.KeyPrefixStorage) : len(evmtypes.KeyPrefixStorage)+common.AddressLength]
+		if bytes.Equal(owner, previous) {
+			continue
+		}
+		previous = append([]byte{}, owner...)
+
+		if callback(common.BytesToAddress(owner)) {
+			break
+		}
+	}
 }
 
 // GetCodeHash returns the code hash for the corresponding account address.
